@@ -94,3 +94,29 @@ Proof.
   unfold floats_ok. vm_compute dists.
   repeat constructor; intros; try discriminate; vm_compute; repeat constructor; discriminate.
 Qed.
+
+(* ---- tie to the Go source by translation of whole function bodies (gen/ImpGen.v, written
+   by `harness gen-imp` on every run, in the embedding of Model/GoSem.v) ------------------- *)
+From Bio.gen Require ImpGen.
+From Bio.Model Require GoSem.
+From Bio.Proofs Require ImpProofs ImpProofsG.
+
+(* The quoting of names: nameToText, nameFromText and quoted as translated from newick.go
+   (strings.ContainsAny with its character set, the three strings.ReplaceAll calls, the
+   slice s[1:len(s)-1]) are the model's functions on every string. *)
+Theorem C05_name_to_text_is_source : forall s,
+  ImpGen.imp_newick_nameToText s = GoSem.Ret (Bio.Model.Newick.name_to_text s).
+Proof. exact ImpProofsG.imp_nameToText. Qed.
+Print Assumptions C05_name_to_text_is_source.
+
+Theorem C05_name_from_text_is_source : forall s,
+  ImpGen.imp_newick_nameFromText s = GoSem.Ret (Bio.Model.Newick.name_from_text s).
+Proof. exact ImpProofsG.imp_nameFromText. Qed.
+Print Assumptions C05_name_from_text_is_source.
+
+Example C05_source_example :
+  ImpGen.imp_newick_nameToText (bs "a b") = GoSem.Ret (bs "a_b")
+  /\ ImpGen.imp_newick_nameToText (bs "it's") = GoSem.Ret (bs "'it''s'")
+  /\ ImpGen.imp_newick_nameFromText (bs "'it''s'") = GoSem.Ret (bs "it's")
+  /\ ImpGen.imp_newick_nameFromText (bs "a_b") = GoSem.Ret (bs "a b").
+Proof. vm_compute. repeat split. Qed.
